@@ -465,6 +465,9 @@ size_t varintAdaptiveDecode(const uint8_t *src, uint64_t *values,
     case VARINT_ADAPTIVE_PFOR: {
         varintPFORMeta pforMeta;
         varintPFORReadMeta(data, &pforMeta);
+        if (pforMeta.count > maxCount) {
+            break; /* output buffer too small */
+        }
         decoded = varintPFORDecode(data, values, &pforMeta);
 
         if (meta) {
